@@ -185,6 +185,10 @@ def one_fault(rep, drv, contents, ci, seed, case_dir, src_root, dst_root, out_ro
         diff = {r: (rcn.get(r), mc.get(r)) for r in set(mc) | set(rcn) if mc.get(r) != rcn.get(r) and not skip(r)}
         # a failed task may have created its parent directories before failing: tolerated only for directories above a failed path
         diff = {r: v for r, v in diff.items() if not (v[0] == ("d",) and v[1] is None and any(e.startswith(r + "/") for e in real_errors))}
+        # the working file of a failed task stays behind when the injected fault hit its clean-up (`unlink` in the temp
+        # file guard): part of "what the failed task left behind"; the run is unsuccessful and names the path
+        if any(c in ("unlink", "unlinkat") for c, _, _ in faults):
+            diff = {r: v for r, v in diff.items() if not (v[1] is None and r.endswith(".sy.tmp") and r[:-7] in real_errors)}
         if diff: dis.append(f"dst {dict(list(sorted(diff.items()))[:4])}")
         if sorted(p for _, p in model["errors"]) != real_errors: dis.append(f"errors impl={real_errors[:4]} model={model['errors'][:4]}")
         if dis: rep.disagree({"what": dis, **desc})
